@@ -88,6 +88,7 @@ def main(argv=None):
 
     known = findings.load()
     seen_known = {}
+    saved_known = set()
     new_viol = []
     seen_sigs = set()
     for v in rep["violations"]:
@@ -97,6 +98,11 @@ def main(argv=None):
         if e is not None:
             seen_known.setdefault(e["what"], 0)
             seen_known[e["what"]] += 1
+            if os.environ.get("VERIF_SAVE_KNOWN") and e.get("replay") and e["replay"] not in saved_known:
+                saved_known.add(e["replay"])
+                path = os.path.join(ROOT, e["replay"])
+                os.makedirs(os.path.dirname(path), exist_ok=True)
+                json.dump({"property": pid, **v}, open(path, "w"), indent=1, sort_keys=True, default=repr)
             continue
         if k in seen_sigs:
             continue
